@@ -71,7 +71,41 @@ class Expander:
     # ---------------------------------------------------------------- entry
     def at(self, func: Func, e: ast.AST, env: dict | None = None) -> Term:
         """Term of expression ``e`` evaluated where it stands in ``func``."""
-        return self.expr(e, func, self.node_of(func, e), env or {}, 0)
+        node = self.node_of(func, e)
+        if env is None:
+            env = self._comp_env(func, e, node)
+        return self.expr(e, func, node, env, 0)
+
+    def _comp_env(self, func: Func, e: ast.AST, node: Node | None) -> dict:
+        """Bindings of the comprehension variables in scope at ``e``."""
+        comps = []
+        cur = parent(e)
+        child = e
+        in_iter = False
+        while cur is not None and cur is not func.node:
+            if isinstance(cur, (ast.ListComp, ast.SetComp, ast.GeneratorExp, ast.DictComp)):
+                # which generators are in scope for `child`
+                gens = cur.generators
+                if child in gens:
+                    k = gens.index(child)
+                    # inside generator k: its iterable sees generators < k, its conditions see <= k
+                    gens = gens[:k] if in_iter else gens[: k + 1]
+                comps.append((cur, gens, child))
+            if isinstance(cur, ast.comprehension):
+                in_iter = child is cur.iter
+            child, cur = cur, parent(cur)
+        env: dict = {}
+        from .dataflow import _targets
+
+        for comp, gens, child in reversed(comps):
+            for g in gens:
+                if child is g.iter:
+                    break
+                it = self.expr(g.iter, func, node, env, 1)
+                for leaf, path in _targets(g.target):
+                    if isinstance(leaf, ast.Name):
+                        env[leaf.id] = _iter_component(it, path, ("comp", comp.lineno, comp.col_offset))
+        return env
 
     def var_at(self, func: Func, name: str, node: Node, out: bool = False) -> Term:
         df = self.df(func)
